@@ -292,7 +292,7 @@ def run_single(case):
 
 
 # ----------------------------------------------------------------------------- dictionaries
-def alphabet(field, seed):
+def alphabet(field, seed, layout="C"):
     """12 boundary makers: returns list of (label, field index, maker(felupe) -> Boundary, selection set {(p,c)}, value spec)"""
     import felupe as fem
 
@@ -332,6 +332,8 @@ def alphabet(field, seed):
 
         def make(value=value, kw=kw, mode=mode, sk=sk, mask=mask, f=f, skip=skip):
             args = dict(value=value.copy() if isinstance(value, np.ndarray) else value)
+            if layout == "F" and isinstance(value, np.ndarray) and value.ndim == 2:
+                args["value"] = np.asfortranarray(args["value"])  # one row per point, Fortran order
             if mask is not None:
                 return fem.Boundary(f, mask=mask, skip=sk if skip is not None else None, **args)
             return fem.Boundary(f, mode=mode, skip=sk, **kw, **args)
@@ -373,7 +375,7 @@ def run_dict(case):
     field = dict(containers(case["mesh"], mesh, case["seed"], case.get("layout", "C")))[case["cont"]]
     idx, off = ref_index(field)
     N = int(off[-1])
-    A = alphabet(field, case["seed"])
+    A = alphabet(field, case["seed"], case.get("layout", "C"))
     cur = np.zeros(N)  # current values by the reference numbering (not read through the library)
     for (fi, p, cc), k in idx.items():
         cur[k] = field.fields[fi].values[p, cc]
@@ -508,7 +510,8 @@ def run_loadcase(case):
                     for clamped in (False, True):
                         for sym in syms:
                             s3 = (sym, sym, sym) if isinstance(sym, bool) else sym
-                            for lr in ((None, None), (float(lo[axis]), float(hi[axis])), (None, float(lo[axis]) + (hi[axis] - lo[axis]) / 2)):
+                            zero_inside = lo[axis] < 0 < hi[axis]  # an explicit position of exactly 0.0 (an interior plane here)
+                            for lr in ((None, None), (float(lo[axis]), float(hi[axis])), (None, float(lo[axis]) + (hi[axis] - lo[axis]) / 2)) + (((None, 0.0), (0.0, None), (0, float(hi[axis]))) if zero_inside else ()):
                                 move = 0.2 + 0.1 * axis
                                 res = fem.dof.uniaxial(field, left=lr[0], right=lr[1], move=move, axis=axis, clamped=clamped, sym=sym)
                                 left = float(lo[axis]) if lr[0] is None else lr[0]
@@ -529,25 +532,31 @@ def run_loadcase(case):
                         for sym in (True, False, (True, False, True), (False, True, False)):
                             s3 = (sym, sym, sym) if isinstance(sym, bool) else sym
                             moves = (0.2, -0.1)
-                            res = fem.dof.biaxial(field, moves=moves, axes=axes, clampes=clampes, sym=sym)
-                            T = symtable(s3)
-                            for i, ax in enumerate(axes):
-                                if not s3[ax]:
-                                    T.append((ax, float(lo[ax]), ax, -moves[i]))
-                            for i, ax in enumerate(axes):
-                                if clampes[i]:
-                                    T += [(ax, float(hi[ax]), cc, 0.0) for cc in range(md) if cc != ax]
+                            zero_inside = all(lo[a] < 0 < hi[a] for a in axes)
+                            for lefts, rights in (((None, None), (None, None)),) + ((((None, None), (0.0, None)), ((0.0, None), (None, None)), ((None, 0.0), (None, float(hi[axes[1]])))) if zero_inside else ()):
+                                res = fem.dof.biaxial(field, lefts=lefts, rights=rights, moves=moves, axes=axes, clampes=clampes, sym=sym)
+                                L = [float(lo[ax]) if lefts[i] is None else float(lefts[i]) for i, ax in enumerate(axes)]
+                                R = [float(hi[ax]) if rights[i] is None else float(rights[i]) for i, ax in enumerate(axes)]
+                                T = symtable(s3)
+                                for i, ax in enumerate(axes):
                                     if not s3[ax]:
-                                        T += [(ax, float(lo[ax]), cc, 0.0) for cc in range(md) if cc != ax]
-                                T.append((ax, float(hi[ax]), ax, moves[i]))
-                            judge(f"{glab}/{clab}/axes={axes}/clampes={clampes}/sym={sym}", res, T)
+                                        T.append((ax, L[i], ax, -moves[i]))
+                                for i, ax in enumerate(axes):
+                                    if clampes[i]:
+                                        T += [(ax, R[i], cc, 0.0) for cc in range(md) if cc != ax]
+                                        if not s3[ax]:
+                                            T += [(ax, L[i], cc, 0.0) for cc in range(md) if cc != ax]
+                                    T.append((ax, R[i], ax, moves[i]))
+                                judge(f"{glab}/{clab}/axes={axes}/clampes={clampes}/sym={sym}/lefts={lefts}/rights={rights}", res, T)
             elif lc == "shear":
                 pairs = [(0, 1), (1, 0)] + ([(0, 2), (2, 0), (1, 2)] if md == 3 else [])
                 for axes in pairs:
                     for sym in (True, False):
-                        for moves in ((0.2, 0.0, 0.0), (0.3, -0.05, 0.07)):
-                            res = fem.dof.shear(field, moves=moves, axes=axes, sym=sym)
-                            bottom, top = float(lo[axes[1]]), float(hi[axes[1]])
+                        zero_inside = lo[axes[1]] < 0 < hi[axes[1]]
+                        for moves, bt in [(m_, (None, None)) for m_ in ((0.2, 0.0, 0.0), (0.3, -0.05, 0.07))] + ([((0.3, -0.05, 0.07), (0.0, None)), ((0.3, -0.05, 0.07), (None, 0.0)), ((0.2, 0.0, 0.0), (0, float(hi[axes[1]])))] if zero_inside else []):
+                            res = fem.dof.shear(field, bottom=bt[0], top=bt[1], moves=moves, axes=axes, sym=sym)
+                            bottom = float(lo[axes[1]]) if bt[0] is None else float(bt[0])
+                            top = float(hi[axes[1]]) if bt[1] is None else float(bt[1])
                             T = []
                             if sym:
                                 T += [(a, 0.0, a, 0.0) for a in range(md) if a not in axes]
@@ -556,7 +565,7 @@ def run_loadcase(case):
                             T.append((axes[1], bottom, axes[1], moves[1]))
                             T.append((axes[1], top, axes[1], moves[2]))
                             T.append((axes[1], top, axes[0], moves[0]))
-                            judge(f"{glab}/{clab}/axes={axes}/sym={sym}/moves={moves}", res, T)
+                            judge(f"{glab}/{clab}/axes={axes}/sym={sym}/moves={moves}/bottom,top={bt}", res, T)
             if not np.array_equal(fem.math.values(field), cur):
                 c.bad(f"{glab}/{clab}/field-mutated", "load case changed the field", "changed", "unchanged")
     return c.result(dict(case=case["key"]))
